@@ -8,3 +8,4 @@ import AJ.Props.C11Slot
 import AJ.Props.C11MpSlot
 import AJ.Props.C11MpDoc
 import AJ.Props.C11MemRun
+import AJ.Props.C11MpMemRun
